@@ -500,6 +500,11 @@ func constBool(v ssa.Value) (bool, bool) {
 				return !b, true
 			}
 		}
+		if x.Op == token.MUL {
+			if g, ok := x.X.(*ssa.Global); ok {
+				return globalConstBool(g)
+			}
+		}
 	case *ssa.Call:
 		// single-block functions returning a constant (shouldUseCaseSensitiveNamedCollection etc. are consts, but be general)
 		if cc := x.Call.StaticCallee(); cc != nil && len(cc.Blocks) == 1 && len(x.Call.Args) == 0 {
@@ -588,4 +593,71 @@ func phiCyclic(p *ssa.Phi) bool {
 		return false
 	}
 	return walk(p, 0)
+}
+
+type gcb struct {
+	val, ok bool
+}
+
+var globalBoolCache = map[*ssa.Global]gcb{}
+
+// globalConstBool: a package-level bool variable that is assigned a constant in the package
+// initialiser and written nowhere else behaves like a build-tag selected constant
+// (shouldUseCaseSensitiveNamedCollection, environment.HasAccessToFS, ...).
+func globalConstBool(g *ssa.Global) (bool, bool) {
+	if r, ok := globalBoolCache[g]; ok {
+		return r.val, r.ok
+	}
+	res := gcb{}
+	stores := 0
+	var val *ssa.Const
+	for _, pk := range g.Pkg.Prog.AllPackages() {
+		// only packages that can name the variable
+		if pk != g.Pkg && !g.Object().Exported() {
+			continue
+		}
+		if pk != g.Pkg && !importsPkg(pk, g.Pkg) {
+			continue
+		}
+		for _, m := range pk.Members {
+			fn, ok := m.(*ssa.Function)
+			if !ok {
+				continue
+			}
+			for _, f := range withAnon(fn) {
+				Instrs(f, func(in ssa.Instruction) {
+					if st, ok := in.(*ssa.Store); ok && st.Addr == ssa.Value(g) {
+						stores++
+						if c, isC := st.Val.(*ssa.Const); isC && f.Name() == "init" && pk == g.Pkg {
+							val = c
+						}
+					}
+				})
+			}
+		}
+	}
+	if stores == 1 && val != nil && val.Value != nil && val.Value.Kind() == constant.Bool {
+		res = gcb{constant.BoolVal(val.Value), true}
+	} else if stores == 0 {
+		res = gcb{false, true} // zero value, never written
+	}
+	globalBoolCache[g] = res
+	return res.val, res.ok
+}
+
+func importsPkg(pk, target *ssa.Package) bool {
+	for _, imp := range pk.Pkg.Imports() {
+		if imp == target.Pkg {
+			return true
+		}
+	}
+	return false
+}
+
+func withAnon(fn *ssa.Function) []*ssa.Function {
+	out := []*ssa.Function{fn}
+	for _, a := range fn.AnonFuncs {
+		out = append(out, withAnon(a)...)
+	}
+	return out
 }
